@@ -6,7 +6,7 @@ D="$(mktemp -d /tmp/mut_XXXXXX)"
 git -C /repo archive HEAD | tar -x -C "$D"
 ( cd "$D" && git init -q . && git apply --whitespace=nowarn "$PATCH" )
 set +e
-FA_REPO="$D" /verif/check "$PROP" --tier "$TIER" > "$D/out.txt" 2>&1
+FA_OUT_DIR="$D/_verif_out" FA_REPO="$D" /verif/check "$PROP" --tier "$TIER" > "$D/out.txt" 2>&1
 rc=$?
 grep -E "^VIOLATION|^KNOWN-FINDING|MACHINERY|tier=" "$D/out.txt" | cut -c1-260 | head -12
 echo "exit=$rc"
